@@ -18,7 +18,7 @@ TRUSTED = ["rustc nightly MIR construction", "flow-insensitive def-use over MIR 
 NAME_OF = "unifiable::Unifiable::LogicVar"
 SS_VEC = "std::vec::Vec<std::option::Option<std::rc::Rc<unifiable::Unifiable>>>"
 PROPAGATE = ("::clone", "::to_string", "::to_owned", "::deref", "::as_str", "::borrow", "::as_ref", "::into", "::from",
-             "::as_bytes", "::chars")
+             "::as_bytes", "::chars", "::len", "::count", "::parse", "::bytes", "::hash")
 ALLOWED_SINK = ("HashMap::<K, V, S, A>::get", "HashMap::<K, V, S, A>::insert", "HashMap::<K, V, S, A>::contains_key",
                 "HashMap::<K, V, S>::get", "HashMap::<K, V, S>::insert", "HashMap::<K, V, S>::contains_key",
                 "::eq", "::ne", "::fmt", "Arguments::<'a>::new", "Argument::<'_>::new_display", "Argument::<'_>::new_debug",
